@@ -103,6 +103,9 @@ def run(ctx) -> None:
                 return Rat.sym(f"k{sl.elts[1].value}")
             if norm(x.value) == gridp and isinstance(sl, ast.Constant) and sl.value in (0, 1, 2):
                 return Rat.sym(f"g{sl.value}")
+            if isinstance(x.value, ast.Attribute) and x.value.attr == "T" and isinstance(sl, ast.Constant) and sl.value in (0, 1, 2) and norm(x.value.value) != gridp:
+                kint_bases.add(norm(x.value.value))      # X.T[a] is column a of X
+                return Rat.sym(f"k{sl.value}")
             if isinstance(x.value, (ast.Tuple, ast.List)) and isinstance(sl, ast.Constant) and isinstance(sl.value, int) and sl.value < len(x.value.elts):
                 return to_rat(x.value.elts[sl.value], env)
         return None
